@@ -214,9 +214,11 @@ func runQueueCase(seed int64, tier string, idx int) caseRes {
 		return res
 	}
 	nextID := 0
+	var walk []*item
+	var touched []string
 	for op := 0; op < nOps; op++ {
 		res.Ops++
-		var touched []string
+		touched = touched[:0]
 		if r.Chance(rmPct) {
 			var h string
 			if len(m.items) > 0 && r.Chance(75) {
@@ -283,7 +285,7 @@ func runQueueCase(seed int64, tier string, idx int) caseRes {
 		if q.GetCacheBytes() != m.bytes {
 			return fail(op, "bytes", "GetCacheBytes()=%d, contents sum to %d", q.GetCacheBytes(), m.bytes)
 		}
-		var walk []*item
+		walk = walk[:0]
 		q.Walk(0, func(s skiplist.Scorer) bool { walk = append(walk, s.(*item)); return true })
 		if len(walk) != len(m.items) {
 			return fail(op, "walk-length", "Walk yields %d items, model holds %d", len(walk), len(m.items))
@@ -397,6 +399,7 @@ func runListCase(seed int64, tier string, idx int) caseRes {
 	firstLE := func(score int64) int { // first position whose score <= score
 		return sort.Search(len(model), func(i int) bool { return model[i].Score <= score })
 	}
+	var now []*skiplist.SkipValue
 	for op := 0; op < nOps; op++ {
 		res.Ops++
 		del := len(model) > 0 && (len(model) >= target && r.Chance(60) || r.Chance(30))
@@ -418,7 +421,7 @@ func runListCase(seed int64, tier string, idx int) caseRes {
 			if found {
 				res.Counts["deletes"]++
 				// exactly one node with that score must be gone; which of the equals is not part of the property
-				var now []*skiplist.SkipValue
+				now = now[:0]
 				sl.WalkS(func(v interface{}) bool { now = append(now, v.(*skiplist.SkipValue)); return true })
 				gone := -1
 				if len(now) == len(model)-1 {
@@ -454,7 +457,7 @@ func runListCase(seed int64, tier string, idx int) caseRes {
 		if sl.Len() != len(model) {
 			return fail(op, "len", "Len()=%d, model holds %d", sl.Len(), len(model))
 		}
-		var now []*skiplist.SkipValue
+		now = now[:0]
 		sl.WalkS(func(v interface{}) bool { now = append(now, v.(*skiplist.SkipValue)); return true })
 		if len(now) != len(model) {
 			return fail(op, "walk-length", "WalkS yields %d nodes, model holds %d", len(now), len(model))
@@ -556,7 +559,7 @@ func run(c *lib.Ctx) {
 	streams := []struct {
 		name string
 		n    int
-	}{{"queue", c.N(640, 16000)}, {"list", c.N(320, 6400)}}
+	}{{"queue", c.N(480, 16000)}, {"list", c.N(240, 6400)}}
 	type job struct {
 		stream string
 		idx    []int
@@ -584,7 +587,7 @@ func run(c *lib.Ctx) {
 	}
 	lib.Parallel(len(jobs), 16, func(j int) {
 		jb := jobs[j]
-		res := c.Child("batch", batchIn{Seed: c.Seed, Tier: c.Tier, Stream: jb.stream, Idx: jb.idx}, lib.ChildOpts{})
+		res := c.Child("batch", batchIn{Seed: c.Seed, Tier: c.Tier, Stream: jb.stream, Idx: jb.idx}, lib.ChildOpts{Env: []string{"GOMAXPROCS=2"}})
 		off := 0
 		if jb.stream == "list" {
 			off = 1000000
@@ -597,7 +600,7 @@ func run(c *lib.Ctx) {
 		if res.Died || json.Unmarshal(res.Out, &out) != nil {
 			// a crash inside the queue code: find the case by re-running the batch one case at a time
 			for _, i := range jb.idx {
-				one := c.Child("batch", batchIn{Seed: c.Seed, Tier: c.Tier, Stream: jb.stream, Idx: []int{i}}, lib.ChildOpts{})
+				one := c.Child("batch", batchIn{Seed: c.Seed, Tier: c.Tier, Stream: jb.stream, Idx: []int{i}}, lib.ChildOpts{Env: []string{"GOMAXPROCS=2"}})
 				if one.Died && !one.TimedOut {
 					c.Violation(off+i, jb.stream+"-crash", map[string]any{"stream": jb.stream, "case": i, "stderr": one.Stderr},
 						"%s case %d kills the process: %s", jb.stream, i, one.Stderr)
